@@ -32,15 +32,16 @@ Fixpoint jbi_loop (fuel : nat) (bs : list N) (i len index joff voff : N) : optio
     match read_u32 bs joff with
     | None => None
     | Some encoded =>
-        if i <? index then jbi_loop f bs (i + 1) len index (joff + 4) (voff + je_len encoded)
+        if JBI_ADVANCE i index then jbi_loop f bs (i + 1) len index (joff + JBI_JSTEP) (voff + je_len encoded)
         else Some (encoded, voff)
     end
   else None
   end.
 Definition get_jentry_by_index_w (bs : list N) (offset hdr index : N) : option (N * N) :=
   let len := hdr_len hdr in
-  if len <=? index then None
-  else jbi_loop (S (length bs)) bs 0 len index (offset + 4) (offset + 4 * len + 4).
+  (* guard, initial offsets and stride: generated from get_jentry_by_index (gen/Constants.v, JBI_...) *)
+  if JBI_REJECT index len then None
+  else jbi_loop (S (length bs)) bs 0 len index (JBI_JOFF offset) (JBI_VOFF offset len).
 
 (* read `len` consecutive entry words starting at joff (the first loop of get_jentry_by_name, object_keys, object_each) *)
 Fixpoint rd_words (fuel : nat) (bs : list N) (i len joff : N) : option (list N) :=
@@ -76,17 +77,19 @@ Fixpoint name_loop (bs name : list N) (ic : bool) (kws : list N) (key_off joff v
                                | None => if ic && eq_ignore_ascii_case name key then Some (venc, voff) else None
                                | Some _ => result
                                end in
-                name_loop bs name ic r (key_off + je_len kw) (joff + 4) (voff + je_len venc) result'
+                name_loop bs name ic r (key_off + je_len kw) (joff + JBN_JSTEP2) (voff + je_len venc) result'
           end
       end
   end.
 Definition get_jentry_by_name_w (bs : list N) (offset hdr : N) (name : list N) (ic : bool) : res (option (N * N)) :=
   let len := hdr_len hdr in
-  match rd_words (S (length bs)) bs 0 len (offset + 4) with
+  (* initial offsets and strides: generated from get_jentry_by_name (JBN_...); the first loop advanced jentry_offset
+     by JBN_JSTEP1 per key and val_offset by the key lengths *)
+  match rd_words (S (length bs)) bs 0 len (JBN_JOFF offset) with
   | None => Ok None
   | Some kws =>
-      let key_off := offset + 8 * len + 4 in
-      name_loop bs name ic kws key_off (offset + 4 + 4 * len) (key_off + sum_je_len kws) None
+      name_loop bs name ic kws (JBN_KOFF offset len) (JBN_JOFF offset + JBN_JSTEP1 * len)
+                (JBN_VOFF offset len + sum_je_len kws) None
   end.
 
 Definition opt_extract (bs : list N) (r : option (N * N)) : res (option (list N)) :=
@@ -142,9 +145,9 @@ Fixpoint keypath_loop (bs : list N) (ks : list keypath) (off : N) (cur : option 
           | KIndex i =>
               if hdr_type hdr =? ARRAY_CONTAINER_TAG then
                 (* length + idx stays inside i32: length < 2^29 *)
-                if ((len <? i) || (len + i <? 0))%Z then Ok None
+                if GBK_B_REJECT i len then Ok None           (* generated from the byte branch of get_by_keypath *)
                 else
-                  let idx := Z.to_N (if (0 <=? i)%Z then i else len + i)%Z in
+                  let idx := Z.to_N (GBK_B_INDEX i len) in
                   match get_jentry_by_index_w bs off hdr idx with
                   | Some (e, voff) => keypath_loop bs r voff (Some e)
                   | None => Ok None
@@ -184,10 +187,10 @@ Definition object_keys_b (bs : list N) : res (option (list N)) :=
   | Some hdr =>
       if hdr_type hdr =? OBJECT_CONTAINER_TAG then
         let len := hdr_len hdr in
-        match rd_words (S (length bs)) bs 0 len 4 with
+        match rd_words (S (length bs)) bs 0 len OKS_JOFF with       (* generated from object_keys (OKS_...) *)
         | None => Ok None
         | Some kws =>
-            do out <- copy_keys bs kws (8 * len + 4)
+            do out <- copy_keys bs kws (OKS_PREV_KOFF len)
                         (be32 (N.lor ARRAY_CONTAINER_TAG (u32 len)) ++ flat_map be32 kws);
             Ok (Some out)
         end
@@ -202,7 +205,7 @@ Fixpoint values_loop (fuel : nat) (bs : list N) (i len joff voff : N) : res (opt
     | None => Ok None
     | Some e =>
         do x <- extract_by_jentry_w e voff bs;
-        do rest <- values_loop f bs (i + 1) len (joff + 4) (voff + je_len e);
+        do rest <- values_loop f bs (i + 1) len (joff + AVS_JSTEP) (voff + je_len e);
         Ok (option_map (cons x) rest)
     end
   else Ok (Some [])
@@ -212,7 +215,7 @@ Definition array_values_b (bs : list N) : res (option (list (list N))) :=
   | None => Ok None
   | Some hdr =>
       if hdr_type hdr =? ARRAY_CONTAINER_TAG then
-        let len := hdr_len hdr in values_loop (S (length bs)) bs 0 len 4 (4 * len + 4)
+        let len := hdr_len hdr in values_loop (S (length bs)) bs 0 len AVS_JOFF (AVS_VOFF len)   (* generated: AVS_... *)
       else Ok None
   end.
 
@@ -239,12 +242,12 @@ Definition object_each_b (bs : list N) : res (option (list (list N * list N))) :
   | Some hdr =>
       if hdr_type hdr =? OBJECT_CONTAINER_TAG then
         let len := hdr_len hdr in
-        match rd_words (S (length bs)) bs 0 (2 * len) 4 with
+        match rd_words (S (length bs)) bs 0 (OEA_WORDS len) OEA_OFF0 with      (* generated from object_each (OEA_...) *)
         | None => Ok None
         | Some ws =>
             (* the words were read, so 8 * len <= length bs and the conversion below is small *)
             let n := N.to_nat len in
-            do (keys, off) <- each_keys bs (firstn n ws) (4 + 8 * len);
+            do (keys, off) <- each_keys bs (firstn n ws) (OEA_OFF0 + OEA_STEP * OEA_WORDS len);
             do items <- each_vals bs keys (skipn n ws) off;
             Ok (Some items)
         end
